@@ -416,6 +416,10 @@ void NifFile::SortController(NiTimeController* controller, SortState& sortState)
 }
 
 void NifFile::SortCollision(NiObject* parent, uint32_t parentIndex, SortState& sortState) {
+	// Never enter the same block twice (guards against self or cyclic references)
+	if (!sortState.enteredCollisionIndices.insert(parentIndex).second)
+		return;
+
 	auto constraint = dynamic_cast<bhkConstraint*>(parent);
 	if (constraint) {
 		for (auto& entityId : constraint->entityRefs) {
